@@ -254,7 +254,7 @@ func c17Search(r *rand.Rand, bin, dir string, id int) c17Case {
 	}
 	var platforms []string
 	allP, noCross := false, false
-	switch r.Intn(7) {
+	switch r.Intn(9) {
 	case 0:
 		allP = true
 		args = append(args, "--all-platforms")
@@ -268,6 +268,19 @@ func c17Search(r *rand.Rand, bin, dir string, id int) c17Case {
 	case 3: // the switch alone: the host platform is the filter then
 		noCross = true
 		args = append(args, "--no-cross-platform")
+	case 4: // several platforms, as a list or as repeated flags, in any order and case
+		platforms = [][]string{{"linux", "macos", "windows"}, {"windows", "darwin", "linux"}, {"Linux", "MacOS", "Windows"}, {"linux", "macos"}}[r.Intn(4)]
+		if r.Intn(2) == 0 {
+			args = append(args, "--platform", strings.Join(platforms, ","))
+		} else {
+			for _, p := range platforms {
+				args = append(args, "-p", p)
+			}
+		}
+		if r.Intn(3) == 0 {
+			noCross = true
+			args = append(args, "--no-cross-platform")
+		}
 	}
 	args = append(args, "--database", dbfile, "--", q) // "--": a query may begin with a dash
 	c.Args, c.Env = intsList(args), env
